@@ -69,3 +69,5 @@ Definition int_of_str (s : string) : result Z :=
   end.
 
 Definition string_eqb := String.eqb.
+
+Infix "+++" := String.append (right associativity, at level 60).
